@@ -29,7 +29,7 @@ RoleStr(w) == CASE w = 1 -> "1" [] w = 2 -> "2" [] w = 3 -> "3" [] OTHER -> "?"
 TookTok(op) == CASE op = 0 -> "took:0" [] op = 1 -> "took:1" [] op = 2 -> "took:2" [] op = 3 -> "took:3" [] OTHER -> "took:?"
 
 Silent == /\ Keep
-          /\ \/ \E w \in Workers : W_Create(w) \/ W_CaseCheck(w) \/ W_Done(w) \/ W_Send(w)
+          /\ \/ \E w \in Workers : W_Create(w) \/ W_CaseCheck(w) \/ W_Done(w) \/ W_Send(w) \/ (W_Loop(w) /\ wpc'[w] = "take")
              \/ C_Join
 
 Logged ==
@@ -48,9 +48,10 @@ Logged ==
      \/ IsG("c", "alive") /\ C_Alive
      \/ IsG("env", "stop") /\ Env_Stop
      \/ \E w \in Workers :
-          \/ \E op \in Ops : IsG(RoleStr(w), TookTok(op)) /\ W_Loop(w) /\ wop'[w] = op /\ wpc'[w] = "create"
-          \/ IsG(RoleStr(w), "took:0") /\ wpc[w] = "loop" /\ nextOp > NOps /\ UNCHANGED vars      \* no operation left: the thread is about to exit
-          \/ IsG(RoleStr(w), "exit") /\ W_Loop(w) /\ wpc'[w] = "dead"
+          \/ IsG(RoleStr(w), "loop") /\ wpc[w] = "take" /\ UNCHANGED vars        \* about to ask the producer (the stop check before it is silent)
+          \/ \E op \in Ops : IsG(RoleStr(w), TookTok(op)) /\ W_Take(w) /\ wop'[w] = op /\ wpc'[w] = "create"
+          \/ IsG(RoleStr(w), "took:0") /\ W_Take(w) /\ wpc'[w] = "dead"                            \* no operation left
+          \/ IsG(RoleStr(w), "exit") /\ ((W_Loop(w) /\ wpc'[w] = "dead") \/ (wpc[w] = "dead" /\ UNCHANGED vars))
           \/ IsG(RoleStr(w), "put:ScS") /\ (W_Started(w) \/ W_Err1(w))
           \/ IsG(RoleStr(w), "put:NFE") /\ (W_Err2(w) \/ W_PutNFE(w))
           \/ IsG(RoleStr(w), "put:ScF") /\ W_Finish(w)
